@@ -145,6 +145,22 @@ def run(ctx):
             R.ev()
 
     # ---------------- electron_shells_start ----------------
+    # the answers must not depend on what the library did before (writers use this table) nor on what a
+    # caller does with a returned list: first use the library, then scribble on returned lists
+    hist = 0
+    for nm in ('lanl2dz', 'def2-ecp', 'stuttgart rlc', 'crenbl'):
+        for fmt in sorted(bse.get_formats()):
+            try:
+                bse.get_basis(nm, fmt=fmt, elements=[29, 47, 79] if nm != 'def2-ecp' else None)
+                hist += 1
+            except Exception:
+                pass
+    for n in (0, 2, 10, 28, 46, 60, 78):
+        r0 = call(lut.electron_shells_start, n)
+        if r0[0] == 'ok':
+            r0[1][0] += 7
+            r0[1].append(99)
+    R.extra['history_calls_before_table_checks'] = hist
     for n in range(-2, 131):
         r = call(lut.electron_shells_start, n)
         R.ev()
